@@ -70,7 +70,10 @@ PID = "C10"
 NAME = "x"
 N_TRIALS = 6
 N_HIST = 5
-HISTORIES = ("empty", "same-range", "different-range", "far-range", "enqueued-in-range", "enqueued-out-of-range")
+# "write-fails-once": same-range history, and the storage's set_trial_param raises once per trial (a
+# transient storage error); the objective catches it and asks again
+HISTORIES = ("empty", "same-range", "different-range", "far-range", "enqueued-in-range", "enqueued-out-of-range",
+             "write-fails-once")
 STEPS = ("0.1", "0.3", "0.25", "1", "7", "1e-3")
 INT_STEPS = (1, 2, 3, 7)
 MAX_FINITE = 8  # Grid / BruteForce only where the domain has <= 8 points
@@ -394,12 +397,12 @@ def fixed_value(dom: Dom) -> Any:
 
 def apply_history(study: Any, dom: Dom, hist: str) -> Any:
     """Returns the enqueued value (or _MISSING: None is a legal categorical choice)."""
-    if hist in ("same-range", "different-range", "far-range"):
+    if hist in ("same-range", "different-range", "far-range", "write-fails-once"):
         if dom.kind == "C":
             d = dom.dist()
             vals = [dom.choices[i % len(dom.choices)] for i in range(N_HIST)]
         else:
-            d = dom.dist() if hist == "same-range" else shifted_dist(dom, far=(hist == "far-range"))
+            d = dom.dist() if hist in ("same-range", "write-fails-once") else shifted_dist(dom, far=(hist == "far-range"))
             vals = _grid_values(d)
         for i, v in enumerate(vals):
             study.add_trial(create_trial(state=TrialState.COMPLETE, params={NAME: v}, distributions={NAME: d},
@@ -523,13 +526,32 @@ def run_case(spec: tuple, sampler_name: str, hist: str, seed: int, env: Env, par
     fixed = fixed_value(dom) if sampler_name == "PartialFixed" else None
     records: list[dict] = []
 
+    class _Transient(RuntimeError):
+        pass
+
+    if hist == "write-fails-once":
+        st_obj = study._storage
+        orig_set_param = st_obj.set_trial_param
+        failed_for: set = set()
+
+        def flaky(trial_id: int, *a: Any, **k: Any) -> Any:
+            if trial_id not in failed_for:
+                failed_for.add(trial_id)
+                raise _Transient("injected transient storage error")
+            return orig_set_param(trial_id, *a, **k)
+
+        st_obj.set_trial_param = flaky  # type: ignore
+
     def objective(trial: Any) -> float:
         rec: dict = {"number": trial.number}
         records.append(rec)
         probe["rel"] = None
         i0 = probe["ind"]
         try:
-            v = dom.suggest(trial)
+            try:
+                v = dom.suggest(trial)
+            except _Transient:
+                v = dom.suggest(trial)  # the objective retries after the transient error
         except Exception as e:
             rec["exc"] = e
             raise _SuggestRaised() from e
@@ -560,6 +582,9 @@ def run_case(spec: tuple, sampler_name: str, hist: str, seed: int, env: Env, par
         else:
             part.add("suggest_raised_unexpected")
             part.note(f"UNEXPECTED exception out of optimize {tag} {dcls}: {str(e)[:160]} {base}")
+
+    if hist == "write-fails-once":
+        del st_obj.set_trial_param  # back to the class's method (the storage object is shared between cases)
 
     # -- check every suggested value ----------------------------------------------------------------
     n_rel = 0
@@ -686,7 +711,7 @@ def guarded_case(spec: tuple, sampler_name: str, hist: str, seed: int, env: Env,
 def histories_for(dom: Dom) -> tuple:
     if dom.kind == "C":
         # changed choices are rejected by contract, a value that is not a choice cannot be stored
-        return ("empty", "same-range", "enqueued-in-range")
+        return ("empty", "same-range", "enqueued-in-range", "write-fails-once")
     return HISTORIES
 
 
